@@ -221,6 +221,7 @@ def run(prog, rep, tier, repo):
         gy = ('arg', 2, g.names.get(2))
         calls = [c for c in g.calls() if c.path == K]
         problems = []
+        undec_checked = []
         if len(calls) != 1:
             problems.append('expected one call of the unchecked variant')
         else:
@@ -248,11 +249,38 @@ def run(prog, rep, tier, repo):
                 if good and not g.cfg.dominates(li['header'], c.bb):
                     good = False
             if not good:
-                problems.append('no loop over 0..len(x)-1 that panics when x[i+1] < x[i] dominates the call')
+                # iterator form: the call is dominated by `(0..n-1).any(|i| x[i+1] - x[i] < 0.)` being false (or `.all(ordered)` being true)
+                for cn, v in gs:
+                    if tag(cn) == 'call' and short(cn[1]) in ('any', 'all') and len(cn[2]) == 2 and tag(cn[2][1]) == 'agg' and cn[2][1][1] == 'closure':
+                        it = cn[2][0]
+                        while tag(it) == 'call' and short(it[1]) in ('into_iter', 'iter', 'by_ref') and it[2]:
+                            it = it[2][0]
+                        h = prog.func(cn[2][1][2])
+                        caps = cn[2][1][3]
+                        if tag(it) == 'range' and peq(psub(poly(it[2]), poly(it[1])), {(('len', gx),): 1, (): -1}) and h is not None and len(h.return_values()) == 1:
+                            rv = h.return_values()[0]
+                            i_ = ('arg', 2, h.names.get(2))
+                            ups = {z: caps[z[1]] for z in subterms(rv) if tag(z) == 'upvar' and z[1] < len(caps)}
+                            from ..structs import subst
+                            rv2 = subst(rv, ups)
+                            reads = [z for z in subterms(rv2) if tag(z) == 'index' and z[1] == gx]
+                            ps = sorted(pconst(psub(poly(z[2]), poly(i_))) for z in reads if pconst(psub(poly(z[2]), poly(i_))) is not None)
+                            # any(descent) must be false / all(ordered) must be true
+                            want_v = (short(cn[1]) == 'any')
+                            if ps == [0, 1] and _orders_adjacent(rv2, want_v, gx, i_) and v is (not want_v):
+                                good = True
+            if not good:
+                loopish = any(tag(li['iter']) == 'range' for li in loops) or any(tag(cn) == 'call' and short(cn[1]) in ('any', 'all') for cn, _ in gs)
+                if loopish:
+                    problems.append('no check over 0..len(x)-1 that panics when x[i+1] < x[i] dominates the call')
+                else:
+                    undec_checked.append('sortedness validation idiom not read')
         if problems:
             rep.viol('checked', key, '; '.join(problems), site_of(g.body))
+        elif undec_checked:
+            rep.undecided('checked', key, '; '.join(undec_checked), site_of(g.body), proof=False)
         else:
-            rep.ok('checked', key, 'length assert and adjacent-pair ordering loop dominate the unchecked call')
+            rep.ok('checked', key, 'length assert and adjacent-pair ordering check dominate the unchecked call')
     rep.floor('checked', 1, 'interp1d_linear')
     # ------------------------------------------------------------------ D6 bracketing count
     # The bracket index must be the number of knots among x[0..n-1] that are <= the target: then idx == 0 iff tgt < x[0] (a target equal
@@ -315,6 +343,34 @@ def run(prog, rep, tier, repo):
         else:
             rep.ok('bracket', key, 'bracket index = #{j < n-1 : x[j] <= target} (%s)' % ', '.join(vd[0] for vd in verdicts))
     rep.floor('bracket', 1, 'interp1d_linear_unchecked')
+
+    # ------------------------------------------------------------------ D7 range tests are exact
+    # A target is out of range exactly when it is < x[0] or > x[n-1].  Every branch that compares a target with a knot must compare the two
+    # values themselves: a tolerance band (tgt - x[n-1] > eps*span) hands targets just outside the table to the in-range formula, so Fill
+    # returns ~y_last instead of the fill value and Panic does not panic.
+    key = 'range-test:%s' % short(K)
+    conds = []
+    for gl in f.guards().values():
+        for cn, v in gl:
+            if tag(cn) == 'bin' and len(cn) > 4 and cn[4] in ('f64', 'f32') and cn[1] in ('Lt', 'Le', 'Gt', 'Ge') and cn not in conds:
+                has_t = any(tag(z) == 'index' and z[1] == tgt for z in subterms(cn))
+                has_x = any(tag(z) == 'index' and z[1] == x for z in subterms(cn))
+                if has_t and has_x:
+                    conds.append(cn)
+    for st in f.stores():
+        for z in subterms(st.value):
+            if tag(z) == 'bin' and len(z) > 4 and z[4] in ('f64', 'f32') and z[1] in ('Lt', 'Le', 'Gt', 'Ge') and z not in conds:
+                if any(tag(q) == 'index' and q[1] == tgt for q in subterms(z)) and any(tag(q) == 'index' and q[1] == x for q in subterms(z)):
+                    conds.append(z)
+    bad = [cn for cn in conds if not (tag(cn[2]) == 'index' and tag(cn[3]) == 'index')]
+    if not conds:
+        rep.undecided('range-test', key, 'no comparison of a target with a knot found', site_of(f.body), proof=False)
+    elif bad:
+        rep.viol('range-test', key, 'the range test `%s` compares a derived quantity instead of the target with the knot: targets inside the band it opens are treated '
+                 'as in range although they lie outside [x[0], x[n-1]] (Fill/Panic modes are not honoured there)' % show(bad[0])[:120], site_of(f.body))
+    else:
+        rep.ok('range-test', key, '%d comparisons, each of a target element with a knot' % len(conds))
+    rep.floor('range-test', 1, 'interp1d_linear_unchecked')
     # unchecked also asserts lengths
     key = 'checked:%s:len' % short(K)
     conds = [('bin', 'Eq', ('len', x), ('len', y), 'usize'), ('bin', 'Eq', ('len', y), ('len', x), 'usize')]
